@@ -1,5 +1,6 @@
 import MockeryModel.Tmpl.Funcs
 import MockeryLemmas.Strings
+import MockeryLemmas.Helpers
 /-!
 # C16 — The template function library matches its documented semantics on all inputs
 
@@ -249,5 +250,47 @@ example : exported tableOps Generated.golintInitialismsB [0xC3, 0xA9, 0x61] = so
 example : firstIsLower tableOps [0xC3, 0xA9, 0x61] = some true := by decide
 example : firstIsLower tableOps [0xC3, 0x89, 0x61] = some false := by decide
 example : firstIsLower tableOps [] = some false := by decide
+
+
+/-! ## the repository's own helpers are the translated source
+
+`Generated/Helpers.lean` is written by `harness/verifx` (gohelpers.go) from the text of
+`template_funcs/functions.go` on every run: each helper statement by statement, with the string, rune
+and number types abstract and the standard-library calls as parameters.  The model functions the
+theorems above speak about are these definitions, instantiated with the byte-level reference
+functions – so every theorem about `exported`, `firstIsLower` and the integer helpers is a theorem
+about what the source says now. -/
+
+/-- **model = translation** (`Exported`, `FirstIsLower`): for every Unicode table that classifies every
+code point, the model's value is the value of the translated function, instantiated with
+`strings.ToUpper`, `utf8.DecodeRuneInString`, `unicode.ToUpper`, `string(rune)`, slicing and `+` -/
+theorem case_helpers_are_the_translated_source (U : UnicodeOps) (hU : U.Total) (ini : List Bytes) (s : Bytes) :
+    exported U ini s =
+      some (Generated.Helpers.exported [] ini (toUpperT U) decodeRune runeError U.toUpper encodeRune
+        (fun s n => s.drop n) (· ++ ·) s) ∧
+    firstIsLower U s = some (Generated.Helpers.firstIsLower List.length decodeRune U.isLetter U.isLower s) :=
+  ⟨exported_translated U hU ini s, firstIsLower_translated U hU s⟩
+
+/-- the hypothesis is satisfiable: a table that treats everything outside ASCII as caseless knows every code point -/
+example : ({ tableOps with known := fun _ => true } : UnicodeOps).Total := fun _ => rfl
+
+/-- **model = translation** (`Add`, `Sub`, `Mul`, `Div`, `Mod`, `Incr`, `Decr`, `Min`): the integer helpers are
+the translated accumulating loops over 64-bit wrapping arithmetic; for `Div` and `Mod` the number type
+is "an integer or a run-time panic" (`quoP`, `remP`: a zero divisor panics, a panic is final) -/
+theorem arithmetic_helpers_are_the_translated_source (i : Int) (r : List Int) :
+    addI i r = Generated.Helpers.add (fun a b => wrap64 (a + b)) i r ∧
+    subI i r = Generated.Helpers.sub (fun a b => wrap64 (a - b)) i r ∧
+    mulI i r = Generated.Helpers.mul (fun a b => wrap64 (a * b)) i r ∧
+    divI i r = Generated.Helpers.div quoP (some i) (r.map some) ∧
+    modI i r = Generated.Helpers.mod remP (some i) (r.map some) ∧
+    evalArith .incr [i] = .ok (.int (Generated.Helpers.incr (fun a b => wrap64 (a + b)) 1 i)) ∧
+    evalArith .decr [i] = .ok (.int (Generated.Helpers.decr (fun a b => wrap64 (a - b)) 1 i)) ∧
+    minI (i :: r) = Generated.Helpers.min minI (i :: r) :=
+  ⟨rfl, rfl, rfl, divI_translated i r, modI_translated i r, rfl, rfl, rfl⟩
+
+/-- a concrete run through the translated loops: `div 100 7 2 = 7`, `mod 100 7 = 2`, `div 1 0` panics -/
+example : Generated.Helpers.div quoP (some 100) [some 7, some 2] = some 7 ∧
+    Generated.Helpers.mod remP (some 100) [some 7] = some 2 ∧
+    Generated.Helpers.div quoP (some 1) [some 0, some 5] = none := by decide
 
 end Mockery.C16
